@@ -391,10 +391,16 @@ def noncanonical_variants(rng, doc):
         if c in (b"l", b"d"):
             i += 1
             while doc[i:i + 1] != b"e":
+                if i >= len(doc):
+                    raise ValueError("not a canonical document")
                 i = scan(i)
             return i + 1
         j = doc.index(b":", i)
+        if not doc[i:j].isdigit() or j - i > 12:
+            raise ValueError("not a canonical document")        # (a negative length would send the scanner backwards for ever)
         n = int(doc[i:j])
+        if j + 1 + n > len(doc):
+            raise ValueError("not a canonical document")
         spans.append(("len", i, j)); return j + 1 + n
     try:
         scan(0)
